@@ -39,7 +39,7 @@ func Check(c *Case) (res kit.Result) {
 	}
 	ds, dd := e.S.Bits, e.D.Bits
 	lo, hi := numkit.Lo(ds), numkit.Hi(ds)
-	if c.Pad < 0 || c.Pad > 1<<20 || c.Fix < 0 || c.Fix > 9 || c.Ch < 0 || c.Ch > 64 {
+	if c.Pad < 0 || c.Pad > 1<<20 || c.Fix < 0 || c.Fix > convtab.MaxFix || c.Ch < 0 || c.Ch > 64 {
 		return
 	}
 	in := kit.PadInts(append([]int64{lo, 0, hi}, c.Amps...), c.Pad)
@@ -153,7 +153,7 @@ func Gen(t *rapid.T) *Case {
 	}
 	c := &Case{S: e.S.Name, D: e.D.Name}
 	c.Pad = kit.GenPad(t)
-	c.Fix = rapid.IntRange(0, 9).Draw(t, "fix")
+	c.Fix = rapid.IntRange(0, convtab.MaxFix).Draw(t, "fix")
 	c.Ch = kit.GenNumCh(t, c.Pad)
 	n := rapid.IntRange(2, 24).Draw(t, "n")
 	base := kit.GenAmp(t, e.S.Bits, bAmps[e.S.Bits])
